@@ -21,6 +21,17 @@ THEOREMS = [
      "text": "'recorded satisfied' means 'the condition evaluated true on the predecessor's actual status and result': the "
              "value written is the conjunction of the truthiness of the criteria evaluated in the context made from the "
              "reported result; nothing is staged unless it is true; no other operation touches the decisions"},
+    {"name": "C01c_transition_stages_once / C01c_first_event_creates_one_record / C01c_later_event_creates_no_record / "
+             "C01c_add_task_state_one / C01c_command_call_creates_one_record / C01c_tail_record_count (props/C01c.v)", "strength": "F",
+     "text": "EXACTLY ONCE, per step: a followed transition appends exactly one staged entry under the key (target, route or "
+             "the route it opens) iff none is staged under that key, and otherwise updates that entry in place; the first "
+             "event for a staged key creates exactly one record and later events none; every queued engine command gets "
+             "exactly one record"},
+    {"name": "Examples two_branches_into_a_task_in_a_cycle_merged / loop_with_a_side_branch_merged", "strength": "R",
+     "text": "the history-level 'one execution per satisfied transition' needs two provisos (both replayed on the engine): a "
+             "non-join task inside a cycle with TWO entries keeps its route, so two arrivals merge into one execution "
+             "(outside the property's loops: single entry); and a second arrival before the first staging was acknowledged "
+             "merges (impossible when every offer of a poll is acknowledged, as the provider protocol does)"},
     {"name": "(tested, not proved) exact multiset on success (nothing duplicated, nothing lost)", "strength": "T",
      "text": "monitor c01 reads transitions and start tasks straight from the definition (independently of the composer)"},
 ]
